@@ -14,7 +14,10 @@
 // Area(WithTransform), Area(SignedArea,WithTransform), TransformXY(f).Area(), TransformXY(f).Area(SignedArea), Length(), Centroid()
 // ("E" | "xbits:ybits" | "PANIC"), the float sums of the members' Area()/Length() and "ok" or the
 // name of a concrete-type method whose result differs from the Geometry method.
-// Tags: base, rot, rev, fcw, fccw, perm, zm, tr:dx:dy, sc:k (ordinates times 2^k).
+// Tags: base, rot, rev, fcw, fccw, perm, zm, tr:dx:dy, sc:k (ordinates times 2^k, 515 <= |k| <= 560:
+// squares of ordinates not representable), sm:k (ordinates times 2^k, 1 <= |k| <= 300: every
+// intermediate of the unchanged library stays in range, so Area, Length and Centroid must be the
+// exact measures of the base times 4^k, 2^k, 2^k).
 package main
 
 import (
@@ -409,6 +412,154 @@ func genColl(r *lib.Rng, maxDim int, depth int) *gnode {
 	return n
 }
 
+// ---- asymmetric shapes: the areal centroid, the centroid of the boundary, the centre of the
+// envelope and the vertex average are pairwise different, so a Centroid that silently switches
+// to another notion of centre (e.g. below some absolute size) is visible on them.
+
+// dihedral returns one of the 8 lattice symmetries followed by a lattice translation.
+func dihedral(r *lib.Rng) func(pt) pt {
+	sw, nx, ny := r.Bool(), r.Bool(), r.Bool()
+	ox, oy := float64(r.Range(-6, 6)), float64(r.Range(-6, 6))
+	return func(p pt) pt {
+		if sw {
+			p.x, p.y = p.y, p.x
+		}
+		if nx {
+			p.x = -p.x
+		}
+		if ny {
+			p.y = -p.y
+		}
+		return pt{p.x + ox, p.y + oy}
+	}
+}
+
+func reverseRing(ring []pt) {
+	for i, j := 0, len(ring)-1; i < j; i, j = i+1, j-1 {
+		ring[i], ring[j] = ring[j], ring[i]
+	}
+}
+
+// genAsymPoly: scalene / right triangles, L shapes, rectangles with off-centre holes.
+func genAsymPoly(r *lib.Rng) *gnode {
+	var rings [][]pt
+	switch r.Intn(4) {
+	case 0: // scalene lattice triangle (three different squared side lengths)
+		for {
+			a := pt{float64(r.Range(-8, 8)), float64(r.Range(-8, 8))}
+			b := pt{float64(r.Range(-8, 8)), float64(r.Range(-8, 8))}
+			c := pt{float64(r.Range(-8, 8)), float64(r.Range(-8, 8))}
+			cr := (b.x-a.x)*(c.y-a.y) - (c.x-a.x)*(b.y-a.y)
+			d := func(p, q pt) float64 { return (p.x-q.x)*(p.x-q.x) + (p.y-q.y)*(p.y-q.y) }
+			if cr != 0 && d(a, b) != d(b, c) && d(b, c) != d(c, a) && d(c, a) != d(a, b) {
+				rings = [][]pt{{a, b, c, a}}
+				break
+			}
+		}
+	case 1: // right triangle with different legs
+		a := float64(r.Range(1, 9))
+		b := a + float64(r.Range(1, 6))
+		rings = [][]pt{{{0, 0}, {a, 0}, {0, b}, {0, 0}}}
+	case 2: // L shape: arms of thickness t1, t2 and lengths w, h
+		t1, t2 := float64(r.Range(1, 3)), float64(r.Range(1, 3))
+		w := t2 + float64(r.Range(1, 8))
+		h := t1 + float64(r.Range(1, 8))
+		rings = [][]pt{{{0, 0}, {w, 0}, {w, t1}, {t2, t1}, {t2, h}, {0, h}, {0, 0}}}
+	default: // rectangle with one or two small holes in one corner region
+		w, h := float64(r.Range(5, 12)), float64(r.Range(4, 9))
+		rings = [][]pt{rectRing(0, 0, w, h, r.Bool())}
+		if r.Bool() {
+			rings = append(rings, rectRing(1, 1, 2, 2+float64(r.Intn(2)), r.Bool()))
+		} else {
+			rings = append(rings, []pt{{1, 1}, {3, 1}, {1, 2}, {1, 1}})
+		}
+		if r.Chance(1, 3) {
+			rings = append(rings, rectRing(3, 2, 4, 3, r.Bool()))
+		}
+	}
+	if r.Bool() {
+		reverseRing(rings[0])
+	}
+	n := &gnode{kind: kPoly, rings: rings}
+	n.mapPts(dihedral(r))
+	return n
+}
+
+// genAsymLine: an open polyline with segments of different lengths (never centrally symmetric
+// about its length-weighted centroid except by accident).
+func genAsymLine(r *lib.Rng) *gnode {
+	k := r.Range(3, 6)
+	p := pt{float64(r.Range(-6, 6)), float64(r.Range(-6, 6))}
+	ps := []pt{p}
+	for i := 1; i < k; i++ {
+		for {
+			q := pt{p.x + float64(r.Range(-2, 2)*i), p.y + float64(r.Range(-3, 3))}
+			if q != p {
+				p = q
+				break
+			}
+		}
+		ps = append(ps, p)
+	}
+	return &gnode{kind: kLine, pts: ps}
+}
+
+func shiftX(n *gnode, dx float64) *gnode {
+	n.mapPts(func(p pt) pt { return pt{p.x + dx, p.y} })
+	return n
+}
+
+// genAsym: the asymmetric shapes alone, as members of multipolygons (disjoint columns) and of
+// (nested) collections next to lower-dimensional and empty members; lineal and point geometries.
+func genAsym(r *lib.Rng) *gnode {
+	mpoly := func(dx0 float64) *gnode {
+		n := &gnode{kind: kMPoly}
+		k := r.Range(1, 3)
+		for i := 0; i < k; i++ {
+			if r.Chance(1, 6) {
+				n.kids = append(n.kids, genEmpty(kPoly))
+			}
+			n.kids = append(n.kids, shiftX(genAsymPoly(r), dx0+float64(40*i)))
+		}
+		return n
+	}
+	switch r.Intn(10) {
+	case 0, 1, 2:
+		return genAsymPoly(r)
+	case 3, 4:
+		return mpoly(0)
+	case 5: // the demo's composition: a point and a polygon (the point must not count)
+		n := &gnode{kind: kColl, kids: []*gnode{genPoint(r), genAsymPoly(r)}}
+		if r.Bool() {
+			n.kids = append(n.kids, genAsymLine(r))
+		}
+		if r.Chance(1, 3) {
+			n.kids = append([]*gnode{genEmpty(r.Intn(7))}, n.kids...)
+		}
+		return n
+	case 6: // nested collection with a polygon and a multipolygon
+		inner := &gnode{kind: kColl, kids: []*gnode{genAsymPoly(r), genPoint(r)}}
+		return &gnode{kind: kColl, kids: []*gnode{genAsymLine(r), inner, mpoly(80)}}
+	case 7: // lineal
+		if r.Bool() {
+			return genAsymLine(r)
+		}
+		return &gnode{kind: kMLine, kids: []*gnode{genAsymLine(r), genEmpty(kLine), shiftX(genAsymLine(r), float64(r.Range(-20, 20)))}}
+	case 8: // collection whose highest dimension is 1
+		return &gnode{kind: kColl, kids: []*gnode{genPoint(r), genAsymLine(r),
+			{kind: kMLine, kids: []*gnode{genAsymLine(r), genAsymLine(r)}}, genEmpty(kPoly)}}
+	default: // points
+		mp := &gnode{kind: kMPoint}
+		for i, k := 0, r.Range(2, 5); i < k; i++ {
+			mp.kids = append(mp.kids, genPoint(r))
+		}
+		if r.Bool() {
+			return mp
+		}
+		return &gnode{kind: kColl, kids: []*gnode{genPoint(r), mp, genEmpty(kLine)}}
+	}
+}
+
 // ---------------------------------------------------------------- observations
 
 func bits(f float64) string { return fmt.Sprintf("%016x", math.Float64bits(f)) }
@@ -573,9 +724,10 @@ func main() {
 	classes := map[string]int{}
 	skipped := map[string]int{}
 	trKinds := map[int]int{}
+	scaleK := map[int]int{} // moderate scaling exponents used
 	cts := []geom.CoordinatesType{geom.DimXY, geom.DimXYZ, geom.DimXYM, geom.DimXYZM}
-	classNames := []string{"star", "stair", "mpoly", "line", "mline", "points", "gc_areal", "gc_lineal", "gc_point", "empty", "bigoffset", "float", "floatint", "emptyring"}
-	weights := []int{12, 12, 10, 6, 6, 5, 14, 8, 6, 3, 8, 3, 6, 2}
+	classNames := []string{"star", "stair", "mpoly", "line", "mline", "points", "gc_areal", "gc_lineal", "gc_point", "empty", "bigoffset", "float", "floatint", "emptyring", "asym"}
+	weights := []int{12, 12, 10, 6, 6, 5, 14, 8, 6, 3, 8, 3, 6, 2, 9}
 	total := 0
 	for _, x := range weights {
 		total += x
@@ -661,6 +813,8 @@ func main() {
 			})
 			lattice = false
 			flags = append(flags, "float")
+		case "asym":
+			n = genAsym(r)
 		case "emptyring":
 			// outside the property's domain: a polygon that holds an empty ring (no validation)
 			n = genStair(r)
@@ -755,6 +909,40 @@ func main() {
 					skipped["scale_variant_rejected_by_Validate"]++
 				}
 			}
+			// scaling by a power of two of moderate size, 1 <= |k| <= 300: with lattice ordinates
+			// |c| <= 2^10 every intermediate of the unchanged library (products of three ordinates in
+			// the triangle fan, at most 2^(3k+40)) stays in the normal range, so every float operation
+			// is exact under the scaling and Area, Length, Centroid must be those of the base times
+			// 4^k, 2^k, 2^k.  One exponent per lattice case; the asymmetric class gets one from each
+			// of four strata (far below, below, around 1, above).
+			if lattice {
+				var ks []int
+				if class == "asym" {
+					near := r.Range(1, 20)
+					if r.Bool() {
+						near = -near
+					}
+					ks = []int{-r.Range(101, 300), -r.Range(21, 100), near, r.Range(21, 300)}
+				} else {
+					k := r.Range(1, 300)
+					if r.Chance(3, 5) {
+						k = -k
+					}
+					ks = []int{k}
+				}
+				for _, k := range ks {
+					k := k
+					v = n.clone()
+					v.mapPts(func(p pt) pt { return pt{math.Ldexp(p.x, k), math.Ldexp(p.y, k)} })
+					sg := v.build(ct, &zmGen{zr.Fork()})
+					if sg.Validate() == nil {
+						groups = append(groups, group(fmt.Sprintf("sm:%d", k), sg, tr))
+						scaleK[k]++
+					} else {
+						skipped["moderate_scale_variant_rejected_by_Validate"]++
+					}
+				}
+			}
 		}
 		fmt.Fprintf(w, "%d\t%s\t%s\t%d,%d,%d,%d,%d,%d,%d\t%s\n", i, class, strings.Join(flags, ","),
 			co[0], co[1], co[2], co[3], co[4], co[5], kind, strings.Join(groups, "\t"))
@@ -765,6 +953,7 @@ func main() {
 		keys = append(keys, k)
 	}
 	sort.Strings(keys)
-	js, _ := json.Marshal(map[string]interface{}{"cmd": "c14", "classes": classes, "skipped_invalid": skipped, "transform_kinds": trKinds})
+	js, _ := json.Marshal(map[string]interface{}{"cmd": "c14", "classes": classes, "skipped_invalid": skipped, "transform_kinds": trKinds,
+		"moderate_scale_exponents_distinct": len(scaleK)})
 	fmt.Fprintf(w, "#GEN\t%s\n", js)
 }
